@@ -386,13 +386,17 @@ func c10RunBook(ops []string) string {
 
 // ---------------------------------------------------------------- K: cascades
 
+type c10NodeRule struct {
+	prio     int
+	fails    bool
+	children []int
+}
+
 type c10Node struct {
-	parent         int // -1: added from outside
-	prio           int
-	useRoot        bool
-	trig, fails    bool
-	children       []int
-	willRun        bool
+	parentEv, parentRule int // -1: added from outside
+	prio                 int
+	useRoot              bool
+	rules                []c10NodeRule
 }
 
 func c10ParseRoots(s string) ([][]c10Node, bool) {
@@ -401,26 +405,38 @@ func c10ParseRoots(s string) ([][]c10Node, bool) {
 		var nodes []c10Node
 		for _, ns := range strings.Split(rs, ",") {
 			f := strings.Split(ns, ":")
-			if len(f) != 4 {
+			if len(f) != 3 {
 				return nil, false
 			}
-			n := c10Node{parent: -1, trig: f[2] == "1", fails: f[3] == "1"}
+			n := c10Node{parentEv: -1, parentRule: -1}
 			if f[0] != "r" {
-				n.parent, _ = strconv.Atoi(f[0])
+				x := strings.Split(f[0], ".")
+				if len(x) != 2 {
+					return nil, false
+				}
+				n.parentEv, _ = strconv.Atoi(x[0])
+				n.parentRule, _ = strconv.Atoi(x[1])
 			}
 			if f[1] == "R" {
 				n.useRoot = true
 			} else {
 				n.prio, _ = strconv.Atoi(f[1])
 			}
+			if f[2] != "-" {
+				for _, r := range strings.Split(f[2], ";") {
+					x := strings.Split(r, "/")
+					if len(x) != 2 {
+						return nil, false
+					}
+					p, _ := strconv.Atoi(x[0])
+					n.rules = append(n.rules, c10NodeRule{prio: p, fails: x[1] == "1"})
+				}
+			}
 			nodes = append(nodes, n)
 		}
 		for i := range nodes {
-			if p := nodes[i].parent; p >= 0 {
-				nodes[p].children = append(nodes[p].children, i)
-				nodes[i].willRun = nodes[p].willRun && nodes[i].trig
-			} else {
-				nodes[i].willRun = nodes[i].trig
+			if e, k := nodes[i].parentEv, nodes[i].parentRule; e >= 0 && e < len(nodes) && k >= 0 && k < len(nodes[e].rules) {
+				nodes[e].rules[k].children = append(nodes[e].rules[k].children, i)
 			}
 		}
 		roots = append(roots, nodes)
@@ -428,26 +444,30 @@ func c10ParseRoots(s string) ([][]c10Node, bool) {
 	return roots, true
 }
 
-func c10RunCascade(payload string, workers int, roots [][]c10Node) string {
+type c10Pair struct{ e, k int }
+
+func c10Pairs(ps []c10Pair) string {
+	sort.Slice(ps, func(a, b int) bool { return ps[a].e < ps[b].e || (ps[a].e == ps[b].e && ps[a].k < ps[b].k) })
+	ss := make([]string, len(ps))
+	for i, p := range ps {
+		ss[i] = fmt.Sprintf("%d/%d", p.e, p.k)
+	}
+	return c10Join(ss, ".")
+}
+
+func c10RunCascade(payload string, workers int, flag bool, roots [][]c10Node) string {
 	proc := engine.NewProcessor(workers)
+	proc.SetFailOnFirstErrorInTriggerSequence(flag)
 	var mu sync.Mutex
 	started := make([][]string, len(roots))
-	startedIDs := make([][]int, len(roots))
-	var wg sync.WaitGroup
-	for _, nodes := range roots {
-		for _, n := range nodes {
-			if n.willRun {
-				wg.Add(1)
-			}
-		}
-	}
+	startedIDs := make([][]c10Pair, len(roots))
 	// schedule-independent oracle for HighestPriority() inside an action: the own monitor is active,
 	// so the report is at most the own priority and is the priority of some triggering event of that root
 	prioSet := make([]map[int]bool, len(roots))
 	for r, nodes := range roots {
 		prioSet[r] = map[int]bool{}
 		for _, n := range nodes {
-			if n.trig {
+			if len(n.rules) > 0 {
 				if n.useRoot {
 					prioSet[r][0] = true
 				} else {
@@ -458,35 +478,42 @@ func c10RunCascade(payload string, workers int, roots [][]c10Node) string {
 	}
 	hpBad := ""
 	mkEvent := func(r, i int) *engine.Event {
-		kind := "nop"
-		if roots[r][i].trig {
-			kind = "ev"
+		kind := []string{"nop"}
+		if len(roots[r][i].rules) > 0 {
+			kind = []string{"ev", fmt.Sprintf("r%dn%d", r, i)}
 		}
-		return engine.NewEvent(fmt.Sprintf("n%d.%d", r, i), []string{kind}, map[interface{}]interface{}{"r": r, "n": i})
+		return engine.NewEvent(fmt.Sprintf("n%d.%d", r, i), kind, map[interface{}]interface{}{"r": r, "n": i})
 	}
-	check(proc.AddRule(&engine.Rule{
-		Name: "ev", KindMatch: []string{"ev"}, ScopeMatch: []string{},
-		Action: func(p engine.Processor, m engine.Monitor, e *engine.Event, tid uint64) error {
-			defer wg.Done()
-			r, i := e.State()["r"].(int), e.State()["n"].(int)
-			hp := m.RootMonitor().HighestPriority()
-			mu.Lock()
-			if (hp > m.Priority() || !prioSet[r][hp]) && hpBad == "" {
-				hpBad = fmt.Sprintf("bad:root%d.node%d:own=%d:reported=%d", r, i, m.Priority(), hp)
+	for r := range roots {
+		for i := range roots[r] {
+			for k := range roots[r][i].rules {
+				r, i, k := r, i, k
+				rule := roots[r][i].rules[k]
+				check(proc.AddRule(&engine.Rule{
+					Name: fmt.Sprintf("r%dn%dk%d", r, i, k), KindMatch: []string{fmt.Sprintf("ev.r%dn%d", r, i)}, ScopeMatch: []string{},
+					Priority: rule.prio,
+					Action: func(p engine.Processor, m engine.Monitor, e *engine.Event, tid uint64) error {
+						hp := m.RootMonitor().HighestPriority()
+						mu.Lock()
+						if (hp > m.Priority() || !prioSet[r][hp]) && hpBad == "" {
+							hpBad = fmt.Sprintf("bad:root%d.event%d:own=%d:reported=%d", r, i, m.Priority(), hp)
+						}
+						started[r] = append(started[r], fmt.Sprintf("%d/%d@%d", i, k, hp))
+						startedIDs[r] = append(startedIDs[r], c10Pair{i, k})
+						mu.Unlock()
+						for _, c := range rule.children {
+							if _, err := p.AddEvent(mkEvent(r, c), m.NewChildMonitor(roots[r][c].prio)); err != nil {
+								panic(err)
+							}
+						}
+						if rule.fails {
+							return errors.New("scripted failure")
+						}
+						return nil
+					}}))
 			}
-			started[r] = append(started[r], fmt.Sprintf("%d@%d", i, hp))
-			startedIDs[r] = append(startedIDs[r], i)
-			mu.Unlock()
-			for _, c := range roots[r][i].children {
-				if _, err := p.AddEvent(mkEvent(r, c), m.NewChildMonitor(roots[r][c].prio)); err != nil {
-					panic(err)
-				}
-			}
-			if roots[r][i].fails {
-				return errors.New("scripted failure")
-			}
-			return nil
-		}}))
+		}
+	}
 	gate := make(chan struct{})
 	var atGate sync.WaitGroup
 	atGate.Add(workers)
@@ -515,7 +542,7 @@ func c10RunCascade(payload string, workers int, roots [][]c10Node) string {
 	for r, nodes := range roots {
 		rms[r] = proc.NewRootMonitor(nil, nil)
 		for i, n := range nodes {
-			if n.parent >= 0 {
+			if n.parentEv >= 0 {
 				continue
 			}
 			var m engine.Monitor = rms[r]
@@ -528,7 +555,8 @@ func c10RunCascade(payload string, workers int, roots [][]c10Node) string {
 		}
 	}
 	close(gate)
-	wg.Wait()
+	// all workers idle and nothing queued: only actions add events, so the cascades are over
+	proc.ThreadPool().WaitAll()
 	proc.Finish()
 	var trace []string
 	if tracing {
@@ -538,25 +566,18 @@ func c10RunCascade(payload string, workers int, roots [][]c10Node) string {
 	}
 	var res []string
 	for r := range roots {
-		var errIDs []int
+		var errIDs []c10Pair
 		for _, te := range rms[r].AllErrors() {
-			errIDs = append(errIDs, te.Event.State()["n"].(int))
-		}
-		sort.Ints(errIDs)
-		es := make([]string, len(errIDs))
-		for i, id := range errIDs {
-			es[i] = strconv.Itoa(id)
+			for name := range te.ErrorMap {
+				k, _ := strconv.Atoi(name[strings.LastIndex(name, "k")+1:])
+				errIDs = append(errIDs, c10Pair{te.Event.State()["n"].(int), k})
+			}
 		}
 		end := " end=" + strconv.Itoa(rms[r].HighestPriority())
 		if workers == 1 {
-			res = append(res, c10Join(started[r], ".")+" err="+c10Join(es, ".")+end)
+			res = append(res, c10Join(started[r], ".")+" err="+c10Pairs(errIDs)+end)
 		} else {
-			sort.Ints(startedIDs[r])
-			ss := make([]string, len(startedIDs[r]))
-			for i, id := range startedIDs[r] {
-				ss[i] = strconv.Itoa(id)
-			}
-			res = append(res, "set="+c10Join(ss, ".")+" err="+c10Join(es, ".")+end)
+			res = append(res, "set="+c10Pairs(startedIDs[r])+" err="+c10Pairs(errIDs)+end)
 		}
 	}
 	if hpBad == "" {
@@ -739,10 +760,15 @@ func c10RandomRoots(g *Gen, maxRoots, maxNodes int, negative bool) string {
 	for r := 0; r < nr; r++ {
 		n := 1 + g.R.Intn(maxNodes)
 		var nodes []string
+		nrules := make([]int, n)
 		for i := 0; i < n; i++ {
 			parent := "r"
 			if i > 0 && g.R.Intn(4) != 0 {
-				parent = strconv.Itoa(g.R.Intn(i))
+				// added by a rule of an earlier event (if that event has rules)
+				e := g.R.Intn(i)
+				if nrules[e] > 0 {
+					parent = fmt.Sprintf("%d.%d", e, g.R.Intn(nrules[e]))
+				}
 			}
 			prio := strconv.Itoa(g.R.Intn(6))
 			if negative && g.R.Intn(6) == 0 {
@@ -751,14 +777,30 @@ func c10RandomRoots(g *Gen, maxRoots, maxNodes int, negative bool) string {
 			if i == 0 && g.R.Bool() {
 				prio = "R"
 			}
-			trig, fails := "1", "0"
-			if g.R.Intn(7) == 0 {
-				trig = "0"
+			rules := "-"
+			if g.R.Intn(7) != 0 {
+				// 1..4 rules with distinct priorities (ties are covered by the validated R cases)
+				k := 1
+				if g.R.Intn(3) != 0 {
+					k = 2 + g.R.Intn(3)
+				}
+				nrules[i] = k
+				perm := []int{0, 1, 2, 3, 4, 5, -1}
+				for x := len(perm) - 1; x > 0; x-- {
+					y := g.R.Intn(x + 1)
+					perm[x], perm[y] = perm[y], perm[x]
+				}
+				var rs []string
+				for x := 0; x < k; x++ {
+					f := "0"
+					if g.R.Intn(4) == 0 {
+						f = "1"
+					}
+					rs = append(rs, fmt.Sprintf("%d/%s", perm[x], f))
+				}
+				rules = strings.Join(rs, ";")
 			}
-			if g.R.Intn(5) == 0 {
-				fails = "1"
-			}
-			nodes = append(nodes, parent+":"+prio+":"+trig+":"+fails)
+			nodes = append(nodes, parent+":"+prio+":"+rules)
 		}
 		roots = append(roots, strings.Join(nodes, ","))
 	}
@@ -798,9 +840,10 @@ func init() {
 				"S Hl 3:0:0 0:0:1 2:1:1 1:0:0 5:0:0 4:1:0",
 				"R 1 Hsfra 1:1:0 2:0:0 0:0:1",
 				"R 0 HTl 1:1:0 2:0:0 0:0:1",
-				"K 1 r:R:1:0,0:3:1:0,0:1:1:1,0:2:0:0,2:0:1:0|r:5:1:0,r:-2:1:0",
-				"K 1 r:3:1:0,r:1:1:0,r:1:1:0,r:0:1:0,r:-1:1:0,r:2:0:0",
-				"K 4 r:R:1:0,0:3:1:0,0:1:1:1,0:2:0:0,2:0:1:0|r:5:1:0,r:-2:1:0",
+				"K 1 1 r:R:1/1;0/0;2/0,0.0:3:0/0,0.1:1:0/0,0.2:0:0/0,2.0:2:-|r:5:0/0,r:-2:0/1",
+				"K 1 0 r:R:1/1;0/0;2/0,0.0:3:0/0,0.1:1:0/0,0.2:0:0/0,2.0:2:-|r:5:0/0,r:-2:0/1",
+				"K 1 1 r:3:0/0,r:1:0/0,r:1:0/0,r:0:0/0,r:-1:0/0,r:2:-",
+				"K 4 1 r:R:1/1;0/0;2/0,0.0:3:0/0,0.1:1:0/0,0.2:0:0/0,2.0:2:-|r:5:0/0,r:-2:0/1",
 			} {
 				g.Count("corpus")
 				g.Emit(c)
@@ -914,11 +957,11 @@ func init() {
 			// K: one worker (exact order), then 2..8 workers (sets + trace)
 			for i := 0; i < nK1; i++ {
 				g.Count("cascade 1 worker")
-				g.Emit("K 1 " + c10RandomRoots(g, 3, 10, true))
+				g.Emit(fmt.Sprintf("K 1 %d %s", g.R.Intn(2), c10RandomRoots(g, 3, 10, true)))
 			}
 			for i := 0; i < nKn; i++ {
 				g.Count("cascade 2..8 workers")
-				g.Emit(fmt.Sprintf("K %d %s", 2+g.R.Intn(7), c10RandomRoots(g, 3, 12, true)))
+				g.Emit(fmt.Sprintf("K %d %d %s", 2+g.R.Intn(7), g.R.Intn(2), c10RandomRoots(g, 3, 12, true)))
 			}
 		},
 		Run: func(payload string) string {
@@ -953,12 +996,15 @@ func init() {
 			case "Q":
 				return c10RunQueue(f[1:])
 			case "K":
+				if len(f) != 4 {
+					return "bad-payload"
+				}
 				w, _ := strconv.Atoi(f[1])
-				roots, ok := c10ParseRoots(f[2])
+				roots, ok := c10ParseRoots(f[3])
 				if !ok || w < 1 {
 					return "bad-payload"
 				}
-				return c10RunCascade(payload, w, roots)
+				return c10RunCascade(payload, w, f[2] == "1", roots)
 			}
 			return "bad-payload"
 		},
